@@ -959,6 +959,11 @@ class Engine:
                     tb = traceback.extract_tb(e.__traceback__)
                     where = ' <- '.join('%s:%d' % (f.filename.split('/')[-1], f.lineno) for f in tb[-3:])
                     exc = '%s: %s at %s' % (type(e).__name__, str(e)[:200], where)
+                    if not any('/geomdl/' in f.filename for f in tb):
+                        # raised by the harness itself, not by the code under test: harness error
+                        self.stats.bump('aborted')
+                        results.append({'kind': 'abort', 'why': 'harness exception ' + exc})
+                        continue
                 finally:
                     if prof:
                         sys.setprofile(None)
